@@ -108,16 +108,65 @@ def _cvc5_try(smt2, timeout_ms, opts=()):
     return "unknown", res, dt
 
 
+def abstract_smt2(smt2):
+    """Generalisation step: every sum/difference subterm that occurs at least twice (as the same
+    AST) is replaced by a fresh variable, consistently.  The abstracted formula being unsat implies
+    the original is unsat (the original is an instance).  A `sat` answer of the abstraction means
+    nothing and is discarded."""
+    ctx = z3.Context()
+    fs = z3.parse_smt2_string(smt2, ctx=ctx)
+    parents = {}
+    seen = set()
+    stack = list(fs)
+    nodes = {}
+    while stack:
+        e = stack.pop()
+        i = e.get_id()
+        if i in seen:
+            continue
+        seen.add(i)
+        if z3.is_quantifier(e):
+            return None
+        for ch in e.children():
+            if z3.is_app(ch) and ch.decl().kind() in (z3.Z3_OP_ADD, z3.Z3_OP_SUB) and ch.sort().kind() == z3.Z3_REAL_SORT:
+                parents[ch.get_id()] = parents.get(ch.get_id(), 0) + 1
+                nodes[ch.get_id()] = ch
+            stack.append(ch)
+    chosen = [nodes[i] for i, n in parents.items() if n >= 2]
+    if not chosen:
+        return None
+    subs = [(t, z3.Real(f"abs!{k}", ctx)) for k, t in enumerate(chosen)]
+    s = z3.Solver(ctx=ctx)
+    for f in fs:
+        s.add(z3.substitute(f, *subs))
+    return s.to_smt2()
+
+
 def solve_one(job):
     """job = (name, smt2, budget_ms, has_int, ideal_payload).  Returns a result dict."""
     name, smt2, budget, has_int, ideal = job
     tried = []
     total = 0.0
+    if ".cover@" in name:
+        # vacuity guard: only a quick satisfiability probe (sat or unknown are both fine)
+        st, info, dt = _z3_try(smt2, 3000)
+        return {"name": name, "status": st, "info": info, "backend": "z3", "tried": [("z3", st, round(dt, 3))], "solver_s": round(dt, 3)}
     # 1. z3 default, short first slice (most obligations close in milliseconds)
-    first = min(budget, 4000) if ideal is not None else budget
+    first = min(budget, 4000) if not has_int else budget
     st, info, dt = _z3_try(smt2, first)
     tried.append(("z3", st, round(dt, 3)))
     total += dt
+    if st == "unknown" and not has_int:
+        try:
+            ab = abstract_smt2(smt2)
+        except Exception:  # noqa
+            ab = None
+        if ab is not None:
+            st2, info2, dt = _z3_try(ab, min(budget, 8000))
+            tried.append(("z3-abstracted", st2 if st2 == "proved" else "unknown", round(dt, 3)))
+            total += dt
+            if st2 == "proved":
+                st, info = "proved", "proved after abstracting repeated sums by fresh variables"
     if st == "unknown" and ideal is not None:
         from . import ideal as ideal_mod
         t0 = time.time()
